@@ -9,6 +9,7 @@ Oracle O-pwl: np.interp through (keypoint_i, cumsum(kernel)_i) in float64.
 import numpy as np
 
 from tflv import core
+from tflv import modes
 from tflv import findings
 
 PROPERTY = "C05"
@@ -18,10 +19,10 @@ RULE = ("case = (layer kind, keypoints/logits or buckets, units, cyclic, missing
 MIN_EVENTS = {
     "quick": {"PWLCalibration.call/oracle-equal": 1500, "PWLCalibration.learned/keypoints-ordered": 60,
               "PWLCalibration.keypoints/pass-through": 150, "CategoricalCalibration.call/exact": 1000,
-              "consequence/monotone": 30, "consequence/bounded": 300},
+              "consequence/monotone": 30, "consequence/bounded": 300, "PWLCalibration.float64/oracle-equal": 300},
     "thorough": {"PWLCalibration.call/oracle-equal": 60000, "PWLCalibration.learned/keypoints-ordered": 2500,
                  "PWLCalibration.keypoints/pass-through": 6000, "CategoricalCalibration.call/exact": 40000,
-                 "consequence/monotone": 1000, "consequence/bounded": 12000},
+                 "consequence/monotone": 1000, "consequence/bounded": 12000, "PWLCalibration.float64/oracle-equal": 10000},
 }
 ASSUMPTIONS = [
     "PWL outputs compared with tol = 1e-5*max(1,|keypoint outputs|) for fixed keypoints; for learned keypoints the float64 oracle re-derives keypoints from the logits and the comparison is made only when every segment is >= 1e-3 of the range (otherwise float32 keypoint rounding, not the library, dominates) - ill-conditioned cases get the consequence checks only",
@@ -49,13 +50,20 @@ def gen_cases(ctx):
   for i in range(ctx.n):
     kind = ["pwl_fixed", "pwl_fixed", "pwl_learned", "categorical"][i % 4]
     units = int(rng.choice([1, 1, 2, 3]))
+    if kind == "pwl_fixed" and i % 16 == 1:
+      # float64 layer: same definition, judged at float64 resolution (values that float32 cannot represent)
+      yield {"kind": "pwl_f64", "units": units, "nk": int(rng.choice([2, 3, 5, 8])), "learned": bool(rng.rand() < .4),
+             "cyclic": bool(rng.rand() < .25), "impute": str(rng.choice(["no", "value", "value", "tensor"])),
+             "fixed_mo": bool(rng.rand() < .5), "wide": bool(units > 1 and rng.rand() < .5),
+             "seed": int(rng.randint(2**31 - 1)), "exec": modes.pick(rng, (0.5, 0.2, 0.3))}
+      continue
     if kind == "categorical":
       nb = int(rng.choice([1, 2, 3, 5, 9]))
       yield {"kind": kind, "units": units, "num_buckets": nb,
              "default": (None if rng.rand() < .4 else int(rng.choice([-1, 100, nb - 1, 0]))),
              "split": bool(rng.rand() < .3), "wide": bool(rng.rand() < .6),
              "float_input": bool(rng.rand() < .4),
-             "seed": int(rng.randint(2**31 - 1))}
+             "seed": int(rng.randint(2**31 - 1)), "exec": modes.pick(rng, (0.5, 0.2, 0.3))}
       continue
     nk = int(rng.choice([2, 3, 5, 8]))
     lengths = rng.choice([.01, .5, 1., 4.], size=nk - 1)
@@ -68,7 +76,7 @@ def gen_cases(ctx):
            "split": bool(rng.rand() < .3), "wide": bool(units > 1 and rng.rand() < .5),
            "logit_scale": float(rng.choice([0.5, 3.0, 30.0, 200.0])),
            "kernel_class": str(rng.choice(["gauss", "big", "monotone", "monotone", "bounded", "ints"])),
-           "seed": int(rng.randint(2**31 - 1))}
+           "seed": int(rng.randint(2**31 - 1)), "exec": modes.pick(rng, (0.5, 0.2, 0.3))}
 
 
 def _run_categorical(ctx, case):
@@ -91,7 +99,9 @@ def _run_categorical(ctx, case):
   layer(xin)
   K = (rng.normal(size=(nb, units)) * np.array([1., 10., .1])[:units]).astype(np.float32)
   layer.kernel.assign(K)
-  y = layer(xin)
+  ex = case.get("exec", "eager")
+  ctx.cls("exec:" + ex)
+  y = modes.call(tf, ex, layer, xin)
   if case["split"] and units > 1:
     ctx.check("CategoricalCalibration.call/split-shape", isinstance(y, list) and len(y) == units and all(t.shape[-1] == 1 for t in y),
               "split_outputs did not return `units` tensors of width 1")
@@ -111,6 +121,79 @@ def _run_categorical(ctx, case):
   return nb > 1, core.digest([case, core.arr_digest(K, x)])
 
 
+def _run_pwl_f64(ctx, case):
+  """PWLCalibration(dtype=float64): keypoints, missing value and inputs that float32 cannot represent; the function is
+  the same interpolation, judged with a float64-sized tolerance (1e-9 relative)."""
+  tf, tfl = _ensure()
+  rng = np.random.RandomState(case["seed"])
+  units, nk, cyc, imp, learned = case["units"], case["nk"], case["cyclic"] and case["nk"] > 2, case["impute"], case["learned"]
+  kp = np.concatenate([[0.0], np.cumsum(rng.uniform(0.3, 2.1, size=nk - 1))]) + float(rng.choice([-1.7, 0.0, 0.1]))
+  miv = float(rng.choice([-1.2, 0.3, -999.9, 1e-3, kp[-1] + 3.3, -7.0])) if imp == "value" else None
+  if miv is not None and kp[0] <= miv <= kp[-1]:
+    miv = float(kp[0] - 1.2)
+  mov = float(rng.normal()) if (imp != "no" and case["fixed_mo"]) else None
+  layer = tfl.layers.PWLCalibration(
+      input_keypoints=kp.tolist(), units=units, is_cyclic=cyc, impute_missing=(imp != "no"), missing_input_value=miv,
+      missing_output_value=mov, input_keypoints_type="learned_interior" if learned else "fixed", dtype="float64")
+  cols = units if case["wide"] else 1
+  B = 14
+  x = rng.uniform(kp[0] - 2, kp[-1] + 2, size=(B, cols))
+  x[0, :], x[1, :], x[2, :] = kp[0], kp[-1], kp[nk // 2]
+  miss = np.zeros((B, cols))
+  if imp == "value":
+    x[3, :] = miv
+    if cols > 1:
+      x[4, 0] = miv
+  if imp == "tensor":
+    miss[3, :] = 1.0
+    if cols > 1:
+      miss[4, 0] = 1.0
+  inp = tf.constant(x) if imp != "tensor" else [tf.constant(x), tf.constant(miss)]
+  layer(inp)
+  rows = nk - (1 if cyc else 0)
+  k = rng.normal(size=(rows, units)) * np.array([1., 10., .1])[:units]
+  layer.kernel.assign(k)
+  if learned:
+    logits = rng.normal(size=(units, nk - 1)) * 1.5
+    layer.interpolation_logits.assign(logits)
+    w = np.exp(logits - logits.max(axis=1, keepdims=True))
+    lengths = (kp[-1] - kp[0]) * w / w.sum(axis=1, keepdims=True)
+    kps = np.concatenate([np.full((units, 1), kp[0]), kp[0] + np.cumsum(lengths, axis=1)], axis=1)   # (units, nk)
+    kps[:, -1] = kp[-1]
+  else:
+    kps = np.tile(kp[None, :], (units, 1))
+  mo = None
+  if imp != "no":
+    if mov is None:
+      mo = rng.normal(size=(1, units))
+      layer.missing_output.assign(mo)
+    else:
+      mo = np.full((1, units), mov)
+  ex = case.get("exec", "eager")
+  y = modes.call(tf, ex, layer, inp)
+  ctx.cls("kind:pwl_f64", "exec:" + ex, "impute:" + imp, "cyclic:%s" % cyc, "learned:%s" % learned, "units:%d" % units)
+  ok_dtype = (y.dtype == tf.float64)
+  ctx.check("PWLCalibration.float64/dtype", ok_dtype, "float64 layer returned %s" % y.dtype)
+  y = y.numpy().astype(np.float64)
+  outs = np.cumsum(k, axis=0)
+  if cyc:
+    outs = np.concatenate([outs, outs[:1]], axis=0)
+  tol = 1e-9 * core.scale_of(outs, mo)
+  for u in range(units):
+    xu = x[:, u if case["wide"] else 0]
+    ref = np.interp(xu, kps[u], outs[:, u])
+    if imp == "value":
+      ref = np.where(xu == miv, mo[0, u], ref)
+    if imp == "tensor":
+      ref = np.where(miss[:, u if case["wide"] else 0] > 0, mo[0, u], ref)
+    for b in range(B):
+      e = abs(y[b, u] - ref[b])
+      ctx.check("PWLCalibration.float64/oracle-equal", bool(e <= tol),
+                "float64 layer: f(%.17g)=%.17g, oracle %.17g (unit %d)" % (xu[b], y[b, u], ref[b], u),
+                info={"x": float(xu[b]), "missing_input_value": miv, "unit": u}, ratio=e / tol)
+  return True, core.digest([case, core.arr_digest(k, x)])
+
+
 def _pwl_oracle(kp, outs, xu):
   return np.interp(xu, kp, outs)
 
@@ -118,6 +201,8 @@ def _pwl_oracle(kp, outs, xu):
 def run_case(ctx, case):
   if case["kind"] == "categorical":
     return _run_categorical(ctx, case)
+  if case["kind"] == "pwl_f64":
+    return _run_pwl_f64(ctx, case)
   tf, tfl = _ensure()
   rng = np.random.RandomState(case["seed"])
   units, cyc, imp = case["units"], case["cyclic"], case["impute"]
@@ -183,7 +268,11 @@ def run_case(ctx, case):
       layer.missing_output.assign(mo)
     else:
       mo = np.full((1, units), np.float32(case["missing_output_value"]), dtype=np.float32)
-  y = layer(inp)
+  ex = case.get("exec", "eager")
+  ctx.cls("exec:" + ex)
+  y = modes.call(tf, ex, layer, inp)
+  if ex != "eager":
+    layer(inp)    # learned keypoints: call() caches tensors on the layer; refresh them with eager ones for the oracle
   if case["split"] and units > 1:
     ctx.check("PWLCalibration.call/split-shape", isinstance(y, list) and len(y) == units and all(t.shape[-1] == 1 for t in y),
               "split_outputs did not return `units` tensors of width 1")
@@ -300,7 +389,7 @@ def run_case(ctx, case):
     else:
       feed = xk if wide else xk[:, :1]
     inp2 = tf.constant(feed) if imp != "tensor" else [tf.constant(feed), tf.zeros_like(tf.constant(feed))]
-    yk = layer(inp2)
+    yk = modes.call(tf, ex, layer, inp2)
     if case["split"] and units > 1:
       yk = tf.concat(yk, axis=1)
     yk = yk.numpy().astype(np.float64)
@@ -322,7 +411,7 @@ def run_case(ctx, case):
     if imp == "value":
       feed = feed[~np.any(feed == np.float32(miv), axis=1)]
     inp3 = tf.constant(feed) if imp != "tensor" else [tf.constant(feed), tf.zeros_like(tf.constant(feed))]
-    ys = layer(inp3)
+    ys = modes.call(tf, ex, layer, inp3)
     if case["split"] and units > 1:
       ys = tf.concat(ys, axis=1)
     ys = ys.numpy().astype(np.float64)
